@@ -1845,6 +1845,11 @@ func patchCode(context *funcContext) { // {{{
 				}
 				distance = d
 				count++
+				if distance < 0 {
+					// the target lies behind us and is already patched: its sBx is a
+					// distance now, not a label, so the chain cannot be followed further
+					break
+				}
 			}
 			if distance == 0 {
 				context.Code.SetOpCode(pc, OP_NOP)
